@@ -1,5 +1,4 @@
-import CoapVerif.Lemmas.Encode
-import CoapVerif.Model.Build
+import CoapVerif.Lemmas.Build
 /-
 C01 — wire codec round trip for every API-built message on every transport.
 
@@ -9,13 +8,20 @@ C01 — wire codec round trip for every API-built message on every transport.
 
 Property theorems only; helper lemmas live in Lemmas/Encode.lean (S side) and Lemmas/Build.lean (M side).
 
-STATUS.  The S half (P2: the property holds of the specification, for all messages, all three
-framings, any insertion order) is proved in full below.  The M half (P1: `build_view`,
-`refused_is_noop`, `M_encode_eq_S`) is stated in Lemmas/Build.lean as it gets proved; until then it
-is absent here and the check reports the names as missing.
+STATUS.
+ * S half (P2: the property holds of the specification, for all messages, all three framings, any
+   insertion order): proved in full.
+ * M half (P1), proved in full: `M_encode_eq_S` (M's header + buffer = Spec.encode, every framing),
+   `view_of_built`.
+ * M half, PARTIAL: `build_view_partial` covers the append path only (token first, options in
+   ascending number order, then payload; calls that do not trigger the implicit Hop-Limit).  The
+   out-of-order path through coap_insert_option is NOT proved; it is tied to the code by T2 only.
+   `refused_is_noop_partial` covers refused coap_add_token, refused append (no space) and refused
+   coap_add_data.  The full `refused_is_noop` is FALSE on the current tree: witness
+   `refused_proxy_leaves_hop_limit` (open finding hop-limit-left-by-refused-proxy).
 -/
 namespace Coap.C01
-open Coap
+open Coap Coap.M
 
 /-! ### T1: what the code's tables and constants say now -/
 
@@ -77,6 +83,76 @@ theorem build_sorted (xs : List (Nat × Bytes)) :
 theorem build_stable (xs : List (Nat × Bytes)) (k : Nat) :
     (xs.foldl (fun os x => Spec.insertStable x.1 x.2 os) []).filter (fun o => o.1 == k) = xs.filter (fun o => o.1 == k) :=
   Coap.build_stable xs k
+
+/-! ### M side: the PDU the builders produce -/
+
+/-- M's bytes = S's bytes: `coap_pdu_encode_header` + the buffer of the PDU that represents `a` is `Spec.encode p a`,
+for udp, tcp (all four length forms) and ws -/
+theorem M_encode_eq_S (p : Proto) (ms : Nat) (a : Msg) (hty : a.type < 4) (hcode : a.code < 256) (hmid : a.mid < 65536)
+    (ht : a.token.length ≤ 65804) (hlen : p = .tcp → (Spec.encRest a).length < 65805 + 4294967296) :
+    serialise p (conc ms a) = some (Spec.encode p a) := serialise_conc p ms a hty hcode hmid ht hlen
+
+/-- the decoder's view of the representing PDU is the abstract message (values within the RFC length limits) -/
+theorem view_of_built (ms : Nat) (a : Msg) (hc : a.code ≠ 0) (ht : a.token.length ≤ 65804)
+    (ho : Spec.optsOk a.code 0 a.opts = true) : view (conc ms a) = some a := view_conc ms a hc ht ho
+
+/-- `coap_add_option` on the append path is `appendOption`: no payload yet, value fits the length field, not an
+illegal repetition, and the call does not trigger the implicit Hop-Limit (D13) -/
+theorem addOption_is_append (pdu : Pdu) (n : Nat) (v : Bytes) (hd : pdu.data = none) (hv : v.length ≤ 65804)
+    (hrep : ¬ (n = pdu.maxOpt ∧ ¬ repeatable n = true)) (hn : pdu.maxOpt ≤ n)
+    (hhop : ¬ ((pdu.code ≠ 0 ∧ pdu.code < 32) ∧ (n = 35 ∨ n = 39) ∧ ¬ hasOption pdu 16 = true)) :
+    addOption pdu n v = appendOption pdu n v := by
+  have h1 : ¬ (v.length > 65804) := by omega
+  have h2 : ¬ (n < pdu.maxOpt) := by omega
+  simp only [addOption, hd, Option.isSome_none, Bool.false_eq_true, if_false, addOptionInternal, addInternalK, h1, hrep, hhop,
+    R.bind_ok, bind, R.bind, h2]
+
+/-- PARTIAL `build_view`: one accepted call on the APPEND path maps the PDU that represents `a` to the PDU that
+represents the abstract result (stable insertion = append behind the highest number), and the return value is the
+encoded size.  Together with `addToken_conc`, `addData_conc` (below) and `Shape_append` this gives, by induction over
+the script, the view of every PDU built in ascending order.
+FULL STATEMENT (not proved): for EVERY call list `cs` (any insertion order, insert/update/remove included),
+  `M.run (conc ms a₀) cs = R.ok (rcs, pdu) → ∃ a, pdu = conc ms a ∧ a = fold of the abstract calls accepted in rcs`. -/
+theorem build_view_partial (ms : Nat) (a : Msg) (n : Nat) (v : Bytes) (hs : Shape a) (hp : a.payload = [])
+    (hn : lastNum a.opts ≤ n) (hn2 : n ≤ 65535) (hv : v.length ≤ 65804)
+    (hrep : ¬ (n = lastNum a.opts ∧ ¬ repeatable n = true))
+    (hhop : ¬ ((a.code ≠ 0 ∧ a.code < 32) ∧ (n = 35 ∨ n = 39)))
+    (hfit : ms = 0 ∨ (conc ms a).buf.length + (Spec.encOpt (n - lastNum a.opts) v).length ≤ ms) :
+    addOption (conc ms a) n v =
+      R.ok ((Spec.encOpt (n - lastNum a.opts) v).length, conc ms { a with opts := Spec.insertStable n v a.opts }) := by
+  have hd : (conc ms a).data = none := by simp [conc, hp]
+  rw [addOption_is_append (conc ms a) n v hd hv hrep hn (fun h => hhop ⟨h.1, h.2.1⟩)]
+  rw [insertStable_append n v a.opts hs.2.1 hn]
+  exact appendOption_conc ms a n v hs hn hn2 hv hfit
+
+theorem build_token (ms ty code mid : Nat) (t : Bytes) (ht : t.length ≤ 65804)
+    (hfit : ms = 0 ∨ (Spec.extBytes t.length).length + t.length ≤ ms) :
+    addToken (conc ms ⟨ty, code, mid, [], [], []⟩) t = R.ok (1, conc ms ⟨ty, code, mid, t, [], []⟩) :=
+  addToken_conc ms ty code mid t ht hfit
+
+theorem build_payload (ms : Nat) (a : Msg) (d : Bytes) (hp : a.payload = []) (hd : d ≠ [])
+    (hfit : ms = 0 ∨ (conc ms a).buf.length + d.length + 1 ≤ ms) :
+    addData (conc ms a) d = R.ok (1, conc ms { a with payload := d }) := addData_conc ms a d hp hd hfit
+
+/-- PARTIAL `refused_is_noop`: a refused coap_add_token (not first / too long / no space), a refused append (no
+space) and a refused coap_add_data (payload present / no space) return 0 and leave the PDU exactly as it was.
+FULL STATEMENT (FALSE on the current tree, see the witness below; not proved for the editors):
+  `M.call pdu c = R.ok (0, pdu') → pdu' = pdu` for every call `c`. -/
+theorem refused_is_noop_partial (ms : Nat) (a : Msg) :
+    (∀ t, ((conc ms a).buf ≠ [] ∨ t.length > 65804 ∨ (ms ≠ 0 ∧ (Spec.extBytes t.length).length + t.length > ms)) →
+        addToken (conc ms a) t = R.ok (0, conc ms a)) ∧
+    (∀ n v, (ms ≠ 0 ∧ (conc ms a).buf.length + optEncodeSize ((n - lastNum a.opts) % 65536) v.length > ms) →
+        appendOption (conc ms a) n v = R.ok (0, conc ms a)) ∧
+    (∀ d, d ≠ [] → (a.payload ≠ [] ∨ (ms ≠ 0 ∧ (conc ms a).buf.length + d.length + 1 > ms)) →
+        addData (conc ms a) d = R.ok (0, conc ms a)) :=
+  ⟨fun t h => addToken_refused ms a t h, fun n v h => appendOption_refused ms a n v h,
+   fun d hd h => addData_refused ms a d hd h⟩
+
+/-- WITNESS of the open finding hop-limit-left-by-refused-proxy (replay: build udp 12 0 1 1 O35:*20*1): on a GET with
+room for 12 bytes, adding a 20-byte Proxy-Uri returns 0 — and the PDU now holds Hop-Limit = 16 -/
+theorem refused_proxy_leaves_hop_limit :
+    addOption (conc 12 ⟨0, 1, 1, [], [], []⟩) 35 (List.replicate 20 0x61) =
+      R.ok (0, conc 12 ⟨0, 1, 1, [], [(16, [16])], []⟩) := by decide
 
 /-! ### non-vacuity -/
 
